@@ -22,6 +22,7 @@ EXPLANATION = (
     "reached only from _process_order after the fill test and from the reservation estimate, so an order that never traded "
     "is never charged. The arithmetic identity total = ceil(max(pct x quote, min)) for every partition is not claimed: the "
     "mechanism is decided, not the number. This is one of the thinnest claims."
+    " C09.3 also (shared with C08.5): fees are rounded to the pair's precision."
 )
 TRUSTED = ["CPython ast parser", "sa.cells", "mypy callee resolution"]
 
